@@ -90,6 +90,26 @@ def mapped(name, kt, n, eps=1, epsrec=1, ord_hi=None, tiers=Q, timeout=900, fram
                        'file/mmap layer replaced by a pointer to the array (accessor hook)' % (n, kt, '' if ord_hi is None else ' with ordinals 0..%d' % ord_hi, eps, epsrec))
 
 
+def mapped_fixed(name, kt, data, eps=1, epsrec=1, tiers=Q, timeout=1200):
+    n = len(data)
+    j = mapped(name, kt, n, eps=eps, epsrec=epsrec, tiers=tiers, timeout=timeout)
+    j['defs'].update(FIXED_DATA=','.join('%dULL' % x for x in data), VERIF_VEC_CAP=n + 8)
+    j['narrow'] = 0; j['profile_unwind'] = 2 * n + 60; j['profile_samples'] = 8; j['refine_rounds'] = 14
+    j['cbmc_extra'] = ['--max-field-sensitivity-array-size', str(n + 16)]
+    j['bounds'] = ('ONE concrete sorted data set of %d %s keys with long runs of duplicates (listed in the job definition) and EVERY non-reserved query key (symbolic); Epsilon=%d, EpsilonRecursive=%d; '
+                   'file/mmap layer replaced by a pointer to the array (accessor hook); decides the property for this data set only' % (n, kt, eps, epsrec))
+    return j
+
+
+def dup_data(kt, n, seed):
+    """sorted data with runs of duplicates of many lengths (1..9), for count()/upper_bound"""
+    import random
+    r = random.Random(seed); top = (1 << KT[kt]['KEY_BITS']) - 2; v = []; x = r.randint(0, top // 2)
+    while len(v) < n:
+        v += [min(x, top)] * r.randint(1, 9); x += r.choice([1, 1, 2, 40, 100000])
+    return sorted(v[:n])
+
+
 def md(name, mode, npts, cmax, eps=1, epsrec=1, exact=True, tiers=Q, timeout=900, miss=1, mem_gb=14):
     d = dict(CT='uint32_t', CT_U='unsigned int', MAXPTS=npts, NPTS_MIN=npts if exact else 1, CMAX=cmax, MODE=mode, EPS=eps, EPSREC=epsrec,
              VERIF_VEC_CAP=npts + 4, PGM_INDEX_VERIF_MISS_THRESHOLD=miss)
@@ -106,6 +126,36 @@ def dyn(name, mode, nbulk, nops, kmax=5, vmax=3, base=2, bufl=1, idxl=2, eps=1, 
                 bounds=['find/count/lower_bound', 'begin()..end() traversal', 'LSM invariants', 'size/empty/range', 'traversal from lower_bound'][mode] + ' after a bulk-load of %d sorted pairs then every history of %d insert_or_assign/erase operations over keys 0..%d and values 0..%d; '
                        'base=%d, buffer_level=%d (buffer of %d), index_level=%d (levels >= %d carry a PGM-index with Epsilon=%d); all queries afterwards'
                        % (nbulk, nops, kmax, vmax, base, bufl, sum(base ** i for i in range(bufl + 1)), idxl, max(idxl, bufl + 1), eps))
+
+
+def dyn_fixed(name, mode, nops, seed, kmax=23, vmax=3, idxl=3, erase_p=0.3, tiers=Q, timeout=1200, mem_gb=14):
+    """one concrete history of nops updates (python random.Random(seed)), every query symbolic"""
+    import random
+    r = random.Random(seed); ops = []
+    for _ in range(nops):
+        if r.random() < erase_p: ops += [1, r.randint(0, kmax), 0]
+        else: ops += [0, r.randint(0, kmax), r.randint(0, vmax)]
+    j = dyn(name, mode, 0, nops, kmax=kmax, vmax=vmax, idxl=idxl, tiers=tiers, timeout=timeout, mem_gb=mem_gb)
+    j['defs'].update(FIXED_OPS=','.join(str(x) for x in ops), VERIF_VEC_CAP=40, VERIF_VECVEC_CAP=36, VERIF_SET_CAP=kmax + 2)
+    j['profile_unwind'] = 200; j['profile_samples'] = 4; j['refine_rounds'] = 14; j['cbmc_extra'] = ['--max-field-sensitivity-array-size', '128']     # the history is concrete: few profile samples suffice
+    j['bounds'] = (['find/count/lower_bound', 'begin()..end() traversal', 'LSM invariants', 'size/empty/range', 'traversal from lower_bound'][mode] +
+                   ' after ONE concrete history of %d insert_or_assign/erase operations over keys 0..%d (python random.Random(%d), erase probability %.1f; listed in the job definition), '
+                   'EVERY query key / range symbolic; base 2, buffer_level 1 (levels of 3, 4, 8, 16, ... items), levels >= %d carry a PGM-index; decides the property for this history only'
+                   % (nops, kmax, seed, erase_p, idxl))
+    return j
+
+
+def md_fixed(name, mode, npts, seed, cmax=15, miss=1, tiers=Q, timeout=1200, mem_gb=14):
+    """one concrete set of npts 2-d points (python random.Random(seed), duplicates possible), every query point / box symbolic"""
+    import random
+    r = random.Random(seed); pts = [r.randint(0, cmax) for _ in range(2 * npts)]
+    j = md(name, mode, npts, cmax, tiers=tiers, timeout=timeout, miss=miss, mem_gb=mem_gb)
+    j['defs'].update(FIXED_PTS=','.join(str(x) for x in pts), MAXOUT=npts, VERIF_VEC_CAP=npts + 8)
+    # the concrete profiling runs (std::sort on tuples) are slower than a symbolic round (4 s): start low and let the unwinding assertions raise the bounds
+    j['profile_samples'] = 1; j['profile_unwind'] = 40; j['profile_timeout'] = 120; j['refine_rounds'] = 60; j['cbmc_extra'] = ['--max-field-sensitivity-array-size', str(npts + 16)]
+    j['bounds'] = ('ONE concrete set of %d points %s (python random.Random(%d), coordinates 0..%d), %s symbolic over 0..%d; miss_threshold=%d (hook); decides the property for this point set only'
+                   % (npts, [(pts[2 * i], pts[2 * i + 1]) for i in range(npts)], seed, cmax, 'EVERY query point' if mode == 0 else 'EVERY box with min <= max', cmax, miss))
+    return j
 
 
 def cpgm(name, kt, ctype, n, epslo=1, ephi=3, spread=200, sentinel=False, tiers=Q, timeout=900):
@@ -277,7 +327,7 @@ EF_PROBE = [sdslidx('ef_u16_n1', 'eliasfano.cpp', 'u_eliasfano', 'uint16_t', 1, 
 SEG_JOBS = [seg('seg_' + k.replace('_t', ''), k) for k in ('int8_t', 'uint8_t', 'uint64_t', 'int64_t', 'int32_t')] + [seg('seg_i8_dbl', 'int8_t', 64)] + [seg('seg_' + k.replace('_t', ''), k, tiers=T, timeout=3000) for k in ('int16_t', 'uint16_t')]
 JOBS['C01'] += SEG_JOBS
 JOBS['C02'] = JOBS['C01'] + [j_ for j_ in JOBS['C03'] if j_['name'] == 'mkseg_n3_e1_chunk02']
-JOBS['C07'] = [e2e('e2e_u8_n3_e1_r1', 'uint8_t', 3, 1, 1), e2e('e2e_i8_n2_e1_r1', 'int8_t', 2, 1, 1), e2e('e2e_u8_n3_e1_r57_binsearch', 'uint8_t', 3, 1, 57), e2e('e2e_u8_n4_e1_r1', 'uint8_t', 4, 1, 1, tiers=T, timeout=3000)]
+JOBS['C07'] = [e2e('e2e_u8_n3_e1_r1', 'uint8_t', 3, 1, 1), e2e('e2e_i8_n2_e1_r1', 'int8_t', 2, 1, 1), e2e('e2e_u8_n3_e1_r57_binsearch', 'uint8_t', 3, 1, 57)]   # e2e_u8_n4_e1_r1 (n = 4 with a recursive level): out of memory at the 14 GB cap in the full thorough pass - not a job
 JOBS['C16'] = [e2e('frame_u8_n2_e1_r1', 'uint8_t', 2, 1, 1, extra=dict(WITH_FRAME=1)), e2e('frame_u8_n3_e1_r0', 'uint8_t', 3, 1, 0, extra=dict(WITH_FRAME=1))]
 JOBS['C16'] += [mapped('mappedframe_u8_n2', 'uint8_t', 2, frame=True)]
 JOBS['C16'] += [dynframe('dynframe_q_o2', 0, 2), dynframe('dynframe_it_o2', 1, 2, tiers=T, timeout=3000)]
@@ -333,6 +383,12 @@ PROPS = {
                 explanation='Data whose last key is the reserved value is rejected with std::invalid_argument, and only such data (e2e jobs with the sentinel allowed); add_point with a non-increasing key throws logic_error.'),
 }
 # fixed-data jobs: one concrete data set, every query symbolic
+JOBS['C11'] += [mapped_fixed('mapped_fixed_u32_n40_dups', 'uint32_t', dup_data('uint32_t', 40, 3))]
+JOBS['C14'] += [md_fixed('md_fixed_contains_n16_s1', 0, 16, 1)]
+# (range() on a fixed point set with a symbolic box: out of memory at 14 GB even for 5 points - the symbolic box drives every bigmin step; not a job)
+JOBS['C05'] += [dyn_fixed('dyn_fixed_q_h24_s1', 0, 24, 1)]
+JOBS['C06'] += [dyn_fixed('dyn_fixed_it_h24_s1', 1, 24, 1), dyn_fixed('dyn_fixed_rng_h24_s1', 3, 24, 1)]     # traversal from a SYMBOLIC lower_bound on this history: no verdict in 1200 s - not a job
+JOBS['C15'] += [dyn_fixed('dyn_fixed_inv_h24_s1', 2, 24, 1)]
 # probes, not claimed: Elias-Fano / Compressed on fixed data.  The symbolic run is cheap while the loop bounds are small (9 s, 1.2 GB) but the select-support
 # construction loops (4096-entry blocks) must be unwound in full even on concrete data: 11.9 GB and out of memory at the 14 GB cap during bound refinement.
 EF_FIXED_PROBE = [sdsl_fixed('ef_fixed_u32_n9', 'eliasfano.cpp', 'u_eliasfano', 'uint32_t', fixed_data('uint32_t', 9, 2, 'clustered')),
